@@ -24,6 +24,7 @@ From Ase Require Import Proofs.UserData.
 From Ase Require Import Proofs.EndToEnd.
 From Ase Require Import Proofs.EndToEndTotal.
 From Ase Require Import Proofs.EndToEndTilesets.
+From Ase Require Import Proofs.EndToEndCels.
 
 (* (a) framing inverts the serialiser: every program, either count field, any bytes after it *)
 Theorem C01_framing_serialize :
@@ -183,6 +184,25 @@ Theorem C01_e2e_cels_iff :
       (exists c, In (fr, c) (prog_cels s) /\ cc_layer (c_data c) = l).
 Proof. exact e2e_cels_iff. Qed.
 Print Assumptions C01_e2e_cels_iff.
+
+(* CEL CONTENTS (also the file-level half of C06): the cel a sprite that loads holds at (frame, layer) has the content of the
+   program's cel chunk: image pixels = the stored bytes read in the sprite's colour mode and checked against the final
+   palette with the layer's background flag; link targets and tilemaps as stored *)
+Theorem C01_e2e_cel_content :
+  forall (inflate : list Z -> Z -> zres) (s : sprite_prog) (tail : list Z) (f : file),
+    wf_prog s -> inflate_ok inflate s -> load inflate (serialize s ++ tail) = Ok f ->
+    forall (fr l : Z) (c : cel rawpixels),
+      cel_at (prog_cels s) fr l = Some c ->
+      exists c', fcel_of f fr l = Some c' /\
+        match c_content c with
+        | CRaw w h rp => exists lay px, aget (f_layers f) l = Some lay /\
+                           validate_pixels (f_palette f) (f_fmt f) (layer_is_background lay) rp = Ok px /\
+                           c_content c' = CRaw w h px
+        | CLinked o => c_content c' = CLinked o
+        | CTilemap tm => c_content c' = CTilemap tm
+        end.
+Proof. exact e2e_cel_content. Qed.
+Print Assumptions C01_e2e_cel_content.
 
 (* TILESETS.  prog_tilesets s: the tilesets the tileset chunks of s encode, in file order (pixels: the stored bytes read in
    the sprite's colour mode).  For every id the sprite reports the LAST chunk with that id - identifier, empty-tile flag,
